@@ -55,7 +55,7 @@ ALL_FEATURES = [
     "double_space",
     "crlf",
 ]
-RARE_FEATURES = {"lookalike_first": 0.10, "double_space": 0.10, "crlf": 0.03}
+RARE_FEATURES = {"lookalike_first": 0.10, "double_space": 0.10, "crlf": 0.08}
 
 
 def pick_features(rng: random.Random, allow_rare: bool = True) -> list[str]:
